@@ -480,3 +480,73 @@ func (c *Ctx) resetAfter(u *ssa.Function, call ssa.CallInstruction, f string) bo
 	}
 	return true
 }
+
+// binaryFieldsNotValidatedAsText: MQTT 3.1.1 defines the CONNECT password, the will message and the PUBLISH payload as
+// binary data (sections 3.1.3.5, 3.1.3.3, 3.3.3): any byte string is well-formed. The value a decoder stores into
+// one of these fields comes straight from the length-prefixed read - not through a helper that tests it as text
+// (unicode/utf8, a search for NUL): such a helper turns well-formed packets away.
+func (c *Ctx) binaryFieldsNotValidatedAsText() {
+	const rule = "T13-topic-name-predicate"
+	binary := map[string]bool{"password": true, "willMessage": true, "payload": true}
+	var textTest func(f *ssa.Function, d int, seen map[*ssa.Function]bool) string
+	textTest = func(f *ssa.Function, d int, seen map[*ssa.Function]bool) string {
+		if f == nil || f.Blocks == nil || d > 3 || seen[f] {
+			return ""
+		}
+		seen[f] = true
+		for _, call := range ir.Calls(f) {
+			g := call.Common().StaticCallee()
+			if g == nil || g.Pkg == nil {
+				continue
+			}
+			switch pp := g.Pkg.Pkg.Path(); {
+			case pp == "unicode/utf8":
+				return "utf8." + g.Name()
+			case pp == "bytes" && (g.Name() == "IndexByte" || g.Name() == "ContainsRune" || g.Name() == "ContainsAny" || g.Name() == "IndexRune"):
+				return "bytes." + g.Name()
+			case pp == pkgMessage:
+				if t := textTest(g, d+1, seen); t != "" {
+					return g.Name() + " -> " + t
+				}
+			}
+		}
+		return ""
+	}
+	n := 0
+	for _, fn := range c.P.Funcs {
+		if fn.Pkg == nil || fn.Pkg.Pkg.Path() != pkgMessage || fn.Blocks == nil || !c.decoderLike(fn, 0) {
+			continue
+		}
+		for _, b := range fn.Blocks {
+			for _, in := range b.Instrs {
+				st, ok := in.(*ssa.Store)
+				if !ok {
+					continue
+				}
+				sp := ir.PathOf(st.Addr)
+				if len(sp.Fields) == 0 || !binary[sp.Fields[len(sp.Fields)-1]] {
+					continue
+				}
+				field := sp.Fields[len(sp.Fields)-1]
+				v := ir.SeeThrough(st.Val)
+				for i := 0; i < 4; i++ {
+					switch x := v.(type) {
+					case *ssa.Extract:
+						v = x.Tuple
+					case *ssa.Slice:
+						v = ir.SeeThrough(x.X)
+					}
+				}
+				call, ok := v.(*ssa.Call)
+				if !ok || call.Common().StaticCallee() == nil {
+					continue
+				}
+				n++
+				t := textTest(call.Common().StaticCallee(), 0, map[*ssa.Function]bool{})
+				c.R.Check(t == "", rule, fname(fn)+":"+field+":read-as-binary-data", c.P.InstrPos(st), "the field is filled by the plain length-prefixed read",
+					"the decoder fills the binary field "+field+" through "+call.Common().StaticCallee().Name()+", which tests the bytes as text ("+t+"): a well-formed packet whose "+field+" is not valid UTF-8 (or contains a zero byte) is turned away")
+			}
+		}
+	}
+	c.R.Count("decoder stores into binary fields (password, will message, payload)", n)
+}
